@@ -449,6 +449,10 @@ func VxC19_Validate() {
 	if err != nil || res == nil {
 		return
 	}
+	vx.Assertf("C19.validate_covers_every_input", len(res.Files) == vxNFiles, "%d inputs given, %d results", vxNFiles, len(res.Files))
+	if len(res.Files) != vxNFiles {
+		return
+	}
 	rejected := 0
 	for k := range orig {
 		lib := vxLibraryAccepts(orig[k])
@@ -490,10 +494,11 @@ func VxC19_Reports() {
 	if err != nil || res == nil {
 		return
 	}
+	vx.Assertf("C19.report_covers_every_input", len(res.Files) == len(names) && res.TotalFiles == len(names), "%d inputs given, the result describes %d (TotalFiles=%d)", len(names), len(res.Files), res.TotalFiles)
+	// the failing inputs, judged independently of the validator's bookkeeping
 	var failing []string
 	for k := range orig {
-		fr := res.Files[k]
-		if !(fr.Error == nil && fr.Valid) {
+		if len(orig[k]) > 0 && !vxLibraryAccepts(orig[k]) {
 			failing = append(failing, names[k])
 		}
 	}
